@@ -10,10 +10,15 @@ RULE = (
     "instance id and the pairing extra<->instance are checked; the source TensorDict must be unmodified. baseline cases: "
     "RolloutBaseline(.setup).wrap_dataset (also through WarmupBaseline) with rollout batch size != loader batch size: every "
     "row's 'extra' must equal the baseline policy's greedy reward recomputed by the monitor on that very instance. "
+    "history cases: wrap -> read -> real optimizer steps on the live policy -> read again -> baseline rebuilt from the trained "
+    "policy -> the SAME dataset wrapped again -> read: at every phase extra must equal the greedy reward of the monitor's own "
+    "frozen copy of the policy the baseline was last built from, and the baseline's policy must still agree with that copy. "
+    "fit cases: a real RL4COTrainer.fit (REINFORCE + rollout baseline, 3-4 epochs, shuffled, partial last batch, optionally "
+    "inside WarmupBaseline) with the same comparison on every training batch that carries 'extra'. "
     "One evaluation per loader pass / per baseline row; non-trivial = distinct case"
 )
 ASSUMPTIONS = ["baseline policy = small untrained AttentionModelPolicy; greedy rewards are batch-independent (C14)"]
-REQUIRED_COUNTERS = ["c17_loader_passes", "c17_partial_last_batch", "c17_shuffled_reads", "c17_extra_checks", "c17_wrap_calls", "c17_baseline_rows"]
+REQUIRED_COUNTERS = ["c17_loader_passes", "c17_partial_last_batch", "c17_shuffled_reads", "c17_extra_checks", "c17_wrap_calls", "c17_baseline_rows", "c17_history_rows", "c17_rewraps", "c17_optimizer_steps", "c17_fit_batches_with_extra"]
 MIN_NONTRIVIAL = {"quick": 700, "thorough": 2000}
 WORKERS = {"quick": 14, "thorough": 16}
 BUDGET_S = {"quick": 400, "thorough": 3000}
@@ -40,13 +45,25 @@ def cases(tier, seed):
                     for shuffle in (False, True):
                         for dscls in (None, "fast", "fastgen"):
                             out.append(dict(kind="baseline", env=env, N=N, bs_bl=bs_bl, bs=bs, shuffle=shuffle, s=rnd.randrange(10**6), dscls=dscls, warmup=(rnd.random() < 0.3)))
+    # histories: wrap -> read -> optimizer steps on the live policy -> read -> baseline replaced -> re-wrap the same set -> read
+    for env in ("tsp", "cvrp", "op"):
+        for N in ((6, 13) if q else (6, 13, 24)):
+            for dscls in (None, "fast", "fastgen"):
+                for shuffle in (False, True):
+                    out.append(dict(kind="history", env=env, N=N, bs_bl=rnd.choice([4, 7, 64]), bs=rnd.choice([3, 5]), shuffle=shuffle, s=rnd.randrange(10**6), dscls=dscls,
+                                    warmup=(rnd.random() < 0.3), opt_steps=rnd.choice([1, 2, 4])))
+    # real training runs (RL4COTrainer.fit, REINFORCE + rollout baseline, optionally in warm-up), monitored per training batch
+    for env in ("tsp", "cvrp"):
+        for r in range(3 if q else 6):
+            out.append(dict(kind="fit", env=env, N=rnd.choice([13, 16, 21]), bs=rnd.choice([4, 5]), shuffle=rnd.random() < 0.7, s=rnd.randrange(10**6), epochs=rnd.choice([3, 4]),
+                            warmup=rnd.choice([0, 0, 2])))
     return out
 
 
 def run_case(ctx, case):
     from vlib import c17impl
 
-    (c17impl.roundtrip_case if case["kind"] == "roundtrip" else c17impl.baseline_case)(ctx, case)
+    dict(roundtrip=c17impl.roundtrip_case, baseline=c17impl.baseline_case, history=c17impl.history_case, fit=c17impl.fit_case)[case["kind"]](ctx, case)
 
 
 MANIFEST = {
@@ -55,7 +72,8 @@ MANIFEST = {
             "exactly the originals (order or permutation, dtype, shape, content per id) with the extra value attached to its "
             "own instance, and every baseline value attached by RolloutBaseline.wrap_dataset (rollout batch 4/7/64, loader "
             "batch 3/5, shuffled or not, incl. WarmupBaseline) equalled the monitor's recomputation of the baseline "
-            "policy's greedy reward on that instance. Exploration over sizes x batch sizes x classes.",
+            "policy's greedy reward on that instance, also after the live policy took optimizer steps, after the baseline was "
+            "rebuilt and the same set wrapped again, and on every training batch of real multi-epoch fits. Exploration over sizes x batch sizes x classes x histories.",
     "note": "Fingerprints: int64 uid per instance + sha1 of the source tensors before/after (mutation sanitizer).",
     "technique": "runtime monitoring: fingerprinted-instance tracing through the real dataset/loader/baseline-wrapping path with recomputation of the attached baseline values",
     "design_ref": "DESIGN.md section 4 / C17",
